@@ -3,6 +3,8 @@
 package nfpm
 
 import (
+	"strings"
+
 	"github.com/Masterminds/semver/v3"
 	v "github.com/goreleaser/nfpm/v2/internal/zzverif"
 )
@@ -92,4 +94,34 @@ func Verif_C14_SemverSplit() {
 	} else {
 		v.Assert(info.VersionMetadata == meta, "parsed-metadata-kept")
 	}
+}
+
+// Verif_C14_VersionFromEnvironment: a version that reaches the configuration
+// through an environment reference is split like one written out (the split
+// sees the expanded value), and an explicit prerelease that expands to nothing
+// does not shadow the version's own.
+func Verif_C14_VersionFromEnvironment() {
+	mapping := func(name string) string {
+		if name == "VER" {
+			return "v1.4.0-rc2"
+		}
+		return ""
+	}
+	doc := "name: n\narch: amd64\nversion: ${VER}\nprerelease: ${PRE}\n"
+	if v.Symbolic() {
+		v.Store("yaml.fill", func(t any) error {
+			c := t.(*Config)
+			c.Name, c.Arch, c.Version, c.Prerelease = "n", "amd64", "${VER}", "${PRE}"
+			return nil
+		})
+		v.Store("semver.expect", "v1.4.0-rc2")
+		v.Store("semver.next", semver.New(1, 4, 0, "rc2", ""))
+	}
+	cfg, err := ParseWithEnvMapping(strings.NewReader(doc), mapping)
+	v.Reach("C14.env.ran")
+	v.Assert(err == nil, "parse-succeeds-on-a-decodable-document")
+	if err != nil {
+		return
+	}
+	v.Assert(cfg.Version == "1.4.0" && cfg.Prerelease == "rc2", "version-from-the-environment-is-split")
 }
